@@ -4,6 +4,7 @@
  * each document the canonical full traversal is executed on the real parser in
  * lock step with the reference tree (C03), or transcribed into the real writer
  * and compared with the input bytes (C10). */
+#define VF_MAXNODES 70200       /* wide containers: more than 65536 elements in one array / object */
 #include "../lib/vf_util.h"
 #include "../lib/vf_ref.h"
 #include "../lib/vf_gen.h"
@@ -366,14 +367,14 @@ static void carrier_dbl(uint64_t bits)
     if ((bits & 0x7ff0000000000000ULL) == 0x7ff0000000000000ULL && (bits & 0xfffffffffffffULL)) vf_count(CT_NAN, 1);
     for (int form = 0; form < 2; form++) { carrier_begin(form); vf_b_dbits(&CD, bits); carrier_end(label); }
 }
-static uint8_t *payload;
+static uint8_t *payload, *payload_bin;
 static void carrier_len(size_t len)
 {
     char label[80];
     vf_count(CT_LENGTHS, 1);
     for (int kind = VK_STR; kind <= VK_BYT; kind++) {
         snprintf(label, sizeof label, "%s of length %zu", kind == VK_STR ? "string" : "bytes", len);
-        carrier_begin(len & 1); vf_b_blob(&CD, kind, payload, len); carrier_end(label);
+        carrier_begin(len & 1); vf_b_blob(&CD, kind, kind == VK_STR ? payload : payload_bin, len); carrier_end(label);
     }
     /* a NAME of that length */
     if (len <= 40000) { vf_b_reset(&CD); vf_b_open(&CD, VK_OBJ); vf_b_name(&CD, payload, len); vf_b_bool(&CD, true); snprintf(label, sizeof label, "name of length %zu", len); carrier_end(label); }
@@ -447,6 +448,69 @@ static void value_families(void)
     }
 }
 
+/* nesting towers (arrays to the limit of 255, objects to max_depth 255) with elements at every level, and wide
+ * containers (255 / 256 / 257 / 65535 / 65536 / 65537 elements): counters and comparisons of 8 and 16 bits wrap here */
+static vf_doc TD;
+static void shape_families(void)
+{
+    static const int ks[] = { 2, 16, 126, 127, 128, 129, 200, 254, 255 };
+    char label[100];
+    for (size_t ki = 0; ki < sizeof ks / sizeof ks[0]; ki++)
+        for (int variant = 0; variant < 3; variant++) {
+            if (!take()) continue;
+            int k = ks[ki];
+            vf_b_reset(&TD);
+            if (variant == 0) {             /* array root, k arrays deep */
+                for (int i = 0; i < k; i++) vf_b_open(&TD, VK_ARR);
+                vf_b_int(&TD, 1); vf_b_bool(&TD, true); vf_b_blob(&TD, VK_STR, "xy", 2);
+                for (int i = 0; i < k; i++) { vf_b_close(&TD); if (i < k - 1) vf_b_int(&TD, 1000 + i); }
+                snprintf(label, sizeof label, "tower: %d nested arrays with elements at every level", k);
+            } else if (variant == 1) {      /* the same inside an object field */
+                vf_b_open(&TD, VK_OBJ); vf_b_name(&TD, "a", 1);
+                for (int i = 0; i < k; i++) vf_b_open(&TD, VK_ARR);
+                vf_b_int(&TD, 1); vf_b_blob(&TD, VK_STR, "xy", 2);
+                for (int i = 0; i < k; i++) { vf_b_close(&TD); if (i < k - 1) vf_b_int(&TD, -1000 - i); }
+                vf_b_name(&TD, "b", 1); vf_b_int(&TD, 3);
+                vf_b_close(&TD);
+                snprintf(label, sizeof label, "tower: object field holding %d nested arrays", k);
+            } else {                        /* k nested objects, a sibling after each */
+                vf_b_open(&TD, VK_OBJ);
+                for (int i = 1; i < k; i++) { vf_b_name(&TD, "a", 1); vf_b_open(&TD, VK_OBJ); }
+                vf_b_name(&TD, "a", 1); vf_b_int(&TD, 7);
+                for (int i = 1; i < k; i++) { vf_b_close(&TD); vf_b_name(&TD, "b", 1); vf_b_int(&TD, i); }
+                vf_b_close(&TD);
+                snprintf(label, sizeof label, "tower: %d nested objects with a sibling after each", k);
+            }
+            int need = needed_depth(&TD);
+            run_doc(&TD, label, need);
+            if (need < 255) run_doc(&TD, label, 255);
+        }
+    static const int ns[] = { 255, 256, 257, 65535, 65536, 65537 };
+    for (size_t ni = 0; ni < sizeof ns / sizeof ns[0]; ni++)
+        for (int variant = 0; variant < 2; variant++) {
+            if (!take()) continue;
+            if (vf_deadline_passed()) return;
+            int cnt = ns[ni];
+            vf_b_reset(&TD);
+            if (variant == 0) {
+                vf_b_open(&TD, VK_ARR);
+                for (int i = 0; i < cnt; i++) { if (i % 1000 == 999) vf_b_blob(&TD, VK_STR, "s", 1); else vf_b_int(&TD, i - 300); }
+                vf_b_close(&TD);
+                snprintf(label, sizeof label, "wide: array of %d elements", cnt);
+            } else {
+                vf_b_open(&TD, VK_OBJ);
+                for (int i = 0; i < cnt; i++) {
+                    char nm[5] = { (char) ('a' + i / 17576 % 26), (char) ('a' + i / 676 % 26), (char) ('a' + i / 26 % 26), (char) ('a' + i % 26), 0 };
+                    vf_b_name(&TD, nm, 4);
+                    vf_b_int(&TD, i);
+                }
+                vf_b_close(&TD);
+                snprintf(label, sizeof label, "wide: object of %d fields", cnt);
+            }
+            run_doc(&TD, label, 1 + (TD.root_kind == VK_ARR));
+        }
+}
+
 static void on_doc(vf_gen *g, void *u)
 {
     (void) u;
@@ -501,9 +565,15 @@ static void worker(int w, int W, uint64_t start)
     g_w = w; g_W = W; g_start = start; g_index = 0;
     vf_fatal_describe = describe;
     payload = (uint8_t *) vf_xmalloc(70100);
-    for (size_t i = 0; i < 70100; i++) payload[i] = (uint8_t) (i * 131 + (i >> 8) + 1);
-    payload[5] = 0x00; payload[6] = 0x80; payload[7] = 0xff;
+    /* string / name payload: no 0x00 anywhere (so that the C-string entry points see the whole value and the string_equals
+     * probes are real prefixes / extensions); values with an embedded NUL are a leaf class of the document enumeration */
+    for (size_t i = 0; i < 70100; i++) { payload[i] = (uint8_t) (i * 131 + (i >> 8) + 1); if (!payload[i]) payload[i] = 0x7f; }
+    payload[6] = 0x80; payload[7] = 0xff;
+    payload_bin = (uint8_t *) vf_xmalloc(70100);
+    memcpy(payload_bin, payload, 70100);
+    payload_bin[0] = 0x00; payload_bin[5] = 0x00;
     memset(longname, 'n', sizeof longname);
+    shape_families();
     value_families();
     corpus();
     static const int cls[] = { LC_INT8, LC_NEG16, LC_INT32, LC_NEG64, LC_INTMIN, LC_STR, LC_STR0, LC_STRNUL, LC_STR128, LC_BYT, LC_BYT0, LC_DBL, LC_DBLBIG, LC_TRUE, LC_FALSE, LC_OBJ, LC_ARR };
